@@ -226,6 +226,9 @@ function nativeCensus() {
   for (var j = 0; j < ms.length; j++) out.push(typeof ms[j] + (ms[j] instanceof Function ? 'F' : 'n') + (Object.getPrototypeOf(ms[j]) === Function.prototype ? 'P' : 'p') + Object.getOwnPropertyNames(ms[j]).length + typeof ms[j].mark);
   out.push(goS.Hello('c') + goS.Sum(1, 2) + goS.Label() + goV.Label() + goF(3, 4) + goC('q', 1) + goM.b + goL.length + goL[1] + goA[2] + goS.Name + goS.Count + goS.Tags.length);
   out.push(typeof T.fn.caller + String(T.fn.caller) + typeof note.caller);
+  var mk = goMk(1), ob = goObj(2), st = goSt('n'), li = goS.List(2);
+  out.push([Object.getPrototypeOf(mk) === Array.prototype, mk instanceof Array, mk.join(''), Object.getOwnPropertyNames(Object.getPrototypeOf(mk)).length,
+    ob.n, ob.l instanceof Array, ob.l.length, st.Label(), st.Hello instanceof Function, li instanceof Array, li.length, goArr().length].join(''));
   return out.join(',');
 }
 function peeks() {
@@ -641,7 +644,14 @@ func (g *gen) postcopy(R int) string {
 // bridged maps/slices/arrays/funcs, and instanceof against the runtime's own intrinsics
 func (g *gen) native(R int) string {
 	k := g.r.Intn(15)
-	switch g.r.Intn(9) {
+	switch g.r.Intn(12) {
+	case 9:
+		// results of bridged funcs are objects of the CALLING runtime's heap
+		return fmt.Sprintf(`var a = goMk(%d), l = goS.List(%d); Object.getPrototypeOf(a)['bp%d'] = %d; a.push(%d); l[0] = 'w%d'; [Object.getPrototypeOf(a) === Array.prototype, a instanceof Array, a.join(''), [].bp%d, l instanceof Array, l.length, l[0], goArr().join(''), goMk(0).length].join() + '|' + nativeCensus()`, R, k%4, R, R, R, R, R)
+	case 10:
+		return fmt.Sprintf(`var o = goObj(%d), s = goSt('s%d'); o['x%d'] = %d; o.l.push('r%d'); s.Count = %d; [o.n, Object.keys(o).sort().join(''), o.l.join(''), o.l instanceof Array, s.Name, s.Count, s.Label(), s.Sum(1, 2), s.Hello instanceof Function, typeof s.List, goObj(1).l.length, goSt('t').Count].join() + '|' + nativeCensus()`, R, R, R, R, R, k)
+	case 11:
+		return fmt.Sprintf(`var r = []; try { goF(1); } catch (e) { r.push(e instanceof RangeError, e.name); } try { goF({}, 'x%d'); } catch (e) { r.push(e instanceof TypeError, e.name); } try { goMk(); } catch (e) { r.push(e instanceof Error, Object.getPrototypeOf(e) === RangeError.prototype); } r.join() + '|' + goF(%d, 3)`, R, R)
 	case 0, 1:
 		return fmt.Sprintf(`goS.Hello.mark = %d; var h = goS.Hello; h.own = %d; [typeof goS.Hello.mark, h.own, goS.Hello instanceof Function, Object.getPrototypeOf(goS.Hello) === Function.prototype, goS.Hello('r%d'), goS.Sum(%d, 1), goS.Label(), goV.Label(), String(goS.Hello).length].join() + '|' + nativeCensus()`, R, R, R, R)
 	case 2:
@@ -944,6 +954,7 @@ type goThing struct {
 func (g *goThing) Hello(who string) string { return "hello " + who + " from " + g.Name }
 func (g *goThing) Sum(a, b int) int        { return a + b + g.Count }
 func (g goThing) Label() string            { return g.Name + "#" + fmt.Sprint(len(g.Tags)) }
+func (g *goThing) List(n int) []string      { return append([]string{g.Name}, make([]string, n)...) }
 
 func bridge(vm *otto.Otto) {
 	Must(vm.Set("goS", &goThing{Name: "gs", Count: 7, Tags: []string{"a", "b"}}))
@@ -952,6 +963,11 @@ func bridge(vm *otto.Otto) {
 	Must(vm.Set("goL", []string{"x", "y", "z"}))
 	Must(vm.Set("goA", [3]int{4, 5, 6}))
 	Must(vm.Set("goF", func(a, b int) string { return fmt.Sprint(a*b, ":", a+b) }))
+	// funcs whose results are objects: built afresh on every call, in the runtime of the call
+	Must(vm.Set("goMk", func(n int) []int { return []int{n, n + 1, n + 2} }))
+	Must(vm.Set("goObj", func(n int) map[string]interface{} { return map[string]interface{}{"n": n, "l": []string{"p", "q"}} }))
+	Must(vm.Set("goSt", func(name string) *goThing { return &goThing{Name: name, Count: len(name)} }))
+	Must(vm.Set("goArr", func() [2]string { return [2]string{"u", "v"} }))
 	Must(vm.Set("goC", func(call otto.FunctionCall) otto.Value {
 		v, _ := call.Otto.ToValue(fmt.Sprint(len(call.ArgumentList), ":", call.Argument(0).String()))
 		return v
@@ -1381,33 +1397,10 @@ func reportHead(s string) string {
 
 // ---- pinned witnesses of recorded findings (sequential, no goroutines) ----
 
-// status of a finding in /verif/known_findings.json (the merged list tools/check classifies with):
-// "open", "fixed" or "" when it is not listed (findings/C20.json not merged yet)
-func findingStatus(id string) string {
-	bs, err := os.ReadFile("known_findings.json")
-	if err != nil {
-		return ""
-	}
-	var k struct {
-		Findings []struct {
-			ID     string `json:"id"`
-			Status string `json:"status"`
-		} `json:"findings"`
-	}
-	if json.Unmarshal(bs, &k) != nil {
-		return ""
-	}
-	for _, f := range k.Findings {
-		if f.ID == id {
-			return f.Status
-		}
-	}
-	return ""
-}
-
-// C20-bridged-func-template-runtime (class 30): a Go func bridged into a template and called in a
-// copy builds its result with the TEMPLATE's runtime (the wrapper closure of runtime.toValue captures
-// rt), so the copy receives an object of the template's heap and can write the template's intrinsics.
+// C20-bridged-func-template-runtime (fixed by 0e6c197, class 30 no longer accepted): a Go func bridged
+// into a template and called in a copy used to build its result with the TEMPLATE's runtime.  The
+// witness stays pinned as a regression case: the copy must get an array of its own heap and the
+// template must not see what the copy writes on that array's prototype.
 func pinnedFindings(env *Env) {
 	tpl := otto.New()
 	Must(tpl.Set("mk", func() []int { return []int{1, 2} }))
@@ -1416,15 +1409,11 @@ func pinnedFindings(env *Env) {
 	_ = RunJS(cp, `Object.getPrototypeOf(mk()).c20leak = 'from copy'; 0`)
 	b := resultText(RunJS(tpl, `String([].c20leak)`))
 	obs := a + "|" + b
-	const deviating, required = "false:false|from copy", "true:true|undefined"
-	txt := fmt.Sprintf("pinned finding C20-bridged-func-template-runtime: template.Set('mk', func() []int); copy := template.Copy(); copy: var a = mk(); (Object.getPrototypeOf(a) === Array.prototype) + ':' + (a instanceof Array); copy: Object.getPrototypeOf(mk()).c20leak = 'from copy'; template: String([].c20leak) => observed %q, recorded deviation %q, required %q", obs, deviating, required)
-	switch st := findingStatus("C20-bridged-func-template-runtime"); {
-	case st == "open":
-		env.Add(fmt.Sprintf("CPin 30 %s %s %s", cResult(obs), cResult(deviating), cResult(required)), txt, "pinned finding", true)
-	case obs == required || st == "fixed":
-		env.Add(fmt.Sprintf("CPin 30 %s %s %s", cResult(obs), cResult(required), cResult(required)), txt, "pinned finding", true)
-	default:
-		env.Extra["unmerged_finding"] = "C20-bridged-func-template-runtime reproduces (" + obs + ") but is not yet listed in known_findings.json (run tools/mkfindings); not judged in this run"
+	const required = "true:true|undefined"
+	txt := fmt.Sprintf("pinned regression (fixed finding C20-bridged-func-template-runtime): template.Set('mk', func() []int); copy := template.Copy(); copy: var a = mk(); (Object.getPrototypeOf(a) === Array.prototype) + ':' + (a instanceof Array); copy: Object.getPrototypeOf(mk()).c20leak = 'from copy'; template: String([].c20leak) => required %q", required)
+	env.Add(fmt.Sprintf("CPin 30 %s %s %s", cResult(obs), cResult(required), cResult(required)), txt, "pinned regression", true)
+	if obs != required {
+		env.Add(fmt.Sprintf("CPin 30 %s %s %s", cResult(obs), cResult(required), cResult(required)), "pinned regression OBSERVED "+obs, "pinned regression", true)
 	}
 }
 
